@@ -163,4 +163,112 @@ def flagsFrom : Prog → FlagState → Option FlagState
 def flagMap (p : Prog) : Option (List (Nat × Nat)) :=
   (flagsFrom p ⟨0, []⟩).map (·.loads)
 
+/-! ### no stale reads (C16, dynamic layout)
+
+  A statement executed under the guard `g` must not read a (non-accumulator) slot whose most
+  recent assignment in program order is conditional on a DIFFERENT switch (or, for an unguarded
+  reader, on any switch): that assignment may have been skipped and the slot would still hold an
+  older (default) value.  `checkScope` is a single left-to-right pass enforcing the slightly
+  stronger rule "the slot has been written, and EVERY earlier write of it is unguarded or under the
+  reader's own guard" (in the generated programs no slot is ever written under two different
+  guards, so nothing is lost, and no per-slot history has to be overwritten — which is what makes
+  the pass cheap in the kernel).  State: bitmask `wr` of the slots written so far, bitmask `gd` of
+  the slots with at least one guarded write, and per guard `g` the bitmask of the slots written
+  under `g`.  Reads of accumulator slots are governed by `checkChain` and skipped here; guard lists
+  of length ≥ 2 are rejected. -/
+
+/-- the local slots an expression reads -/
+def Expr.vars : Expr → List Nat
+  | .var s => [s]
+  | .add a b | .sub a b | .mul a b | .fdiv a b | .floorDiv a b | .powFelt a b => a.vars ++ b.vars
+  | .neg a => a.vars
+  | _ => []
+
+/-- `f` holds for every slot the expression reads (`= e.vars.all f`, without building the list) -/
+def Expr.allVars (f : Nat → Bool) : Expr → Bool
+  | .var s => f s
+  | .add a b | .sub a b | .mul a b | .fdiv a b | .floorDiv a b | .powFelt a b =>
+    a.allVars f && b.allVars f
+  | .neg a => a.allVars f
+  | _ => true
+
+/-- the slots a statement reads, not counting the accumulator source of `acc` -/
+def Stmt.reads : Stmt → List Nat
+  | .set _ e => e.vars
+  | .acc _ _ _ e => e.vars
+
+def Stmt.allReads (f : Nat → Bool) : Stmt → Bool
+  | .set _ e => e.allVars f
+  | .acc _ _ _ e => e.allVars f
+
+structure ScopeState where
+  /-- slots written so far -/
+  wr : Nat
+  /-- slots with at least one guarded write -/
+  gd : Nat
+  /-- guard slot ↦ bitmask of the slots written under that guard -/
+  byGuard : List (Nat × Nat)
+  deriving Repr, DecidableEq, Inhabited
+
+def guardMask : List (Nat × Nat) → Nat → Nat
+  | [], _ => 0
+  | (k, m) :: rest, g => if k = g then m else guardMask rest g
+
+def guardMaskSet : List (Nat × Nat) → Nat → Nat → List (Nat × Nat)
+  | [], g, x => [(g, 1 <<< x)]
+  | (k, m) :: rest, g, x =>
+    if k = g then (k, m ||| (1 <<< x)) :: rest else (k, m) :: guardMaskSet rest g x
+
+/-- one statement.  Accumulator slots (`A`) count as always readable (the initial `wr` is `A`) and
+    writes to them are not recorded. -/
+def scopeStep (A : Nat) (σ : ScopeState) (gs : List Nat) (s : Stmt) : Option ScopeState :=
+  match gs with
+  | [] =>
+    if s.allReads (fun v => σ.wr.testBit v && !σ.gd.testBit v) then
+      if A.testBit s.dst then some σ
+      else some ⟨σ.wr ||| (1 <<< s.dst), σ.gd, σ.byGuard⟩
+    else none
+  | [g] =>
+    if s.allReads (fun v =>
+        σ.wr.testBit v && (!σ.gd.testBit v || (guardMask σ.byGuard g).testBit v)) then
+      if A.testBit s.dst then some σ
+      else if !σ.gd.testBit s.dst || (guardMask σ.byGuard g).testBit s.dst then
+        some ⟨σ.wr ||| (1 <<< s.dst), σ.gd ||| (1 <<< s.dst), guardMaskSet σ.byGuard g s.dst⟩
+      else none
+    else none
+  | _ => none
+
+def scopeFrom (A : Nat) : Prog → ScopeState → Option ScopeState
+  | [], σ => some σ
+  | g :: rest, σ =>
+    match scopeStep A σ g.guards g.stmt with
+    | some σ' => scopeFrom A rest σ'
+    | none => none
+
+/-- every read of a non-accumulator slot sees only writes that are at least as unconditional as
+    the reading statement -/
+def checkScope (p : Prog) (A : Nat) : Bool := (scopeFrom A p ⟨A, 0, []⟩).isSome
+
+/-- `scopeFrom` with the state unpacked into arguments (same function, `Proofs/AstScope.lean`;
+    cheaper to evaluate in the kernel) -/
+def scopeGo (A : Nat) : Prog → Nat → Nat → List (Nat × Nat) → Option ScopeState
+  | [], wr, gd, bg => some ⟨wr, gd, bg⟩
+  | g :: rest, wr, gd, bg =>
+    match g.guards with
+    | [] =>
+      if g.stmt.allReads (fun v => wr.testBit v && !gd.testBit v) then
+        if A.testBit g.stmt.dst then scopeGo A rest wr gd bg
+        else scopeGo A rest (wr ||| (1 <<< g.stmt.dst)) gd bg
+      else none
+    | [k] =>
+      if g.stmt.allReads (fun v =>
+          wr.testBit v && (!gd.testBit v || (guardMask bg k).testBit v)) then
+        if A.testBit g.stmt.dst then scopeGo A rest wr gd bg
+        else if !gd.testBit g.stmt.dst || (guardMask bg k).testBit g.stmt.dst then
+          scopeGo A rest (wr ||| (1 <<< g.stmt.dst)) (gd ||| (1 <<< g.stmt.dst))
+            (guardMaskSet bg k g.stmt.dst)
+        else none
+      else none
+    | _ => none
+
 end Swiftness.Ast
